@@ -167,46 +167,7 @@ func runC01(c *Ctx) {
 	// ------------------------------------------------------------------ R6
 	c.Rule("C01-R6", "balanced accounting: the load goroutine ends either with {one hand-out, no decrement} or {one decrement, one error reply, one expiry post, no hand-out}; each hand-out path starts exactly one goroutine that posts the request's finish event after its context ends; the finish branch decrements exactly once for a runner it found")
 	ruleLoadGoroutineBalanced(c, m, "C01-R6")
-	if f := m.lc.fn("LlmRequest.useLoadedRunner"); f != nil {
-		g := c.G(f)
-		_, incs := g.CountPaths(g.Entry(), func(n ast.Node) int {
-			if id, ok := n.(*ast.IncDecStmt); ok && id.Tok == token.INC && core.FieldVar(info, id.X) == m.fRefCount {
-				return 1
-			}
-			return 0
-		}, nil)
-		_, fins := g.CountPaths(g.Entry(), func(n ast.Node) int {
-			gs, ok := n.(*ast.GoStmt)
-			if !ok {
-				return 0
-			}
-			l, ok := ast.Unparen(gs.Call.Fun).(*ast.FuncLit)
-			if !ok {
-				return 0
-			}
-			k := 0
-			ast.Inspect(l.Body, func(x ast.Node) bool {
-				if ss, ok := x.(*ast.SendStmt); ok && m.chanFieldOf(ss.Chan, m.lc.byLit[l]) == m.fFinished {
-					k++
-				}
-				return true
-			})
-			if k == 1 && len(core.CallsTo(info, l.Body, false, "context.Context.Done")) == 1 {
-				return 1
-			}
-			return 0
-		}, nil)
-		_, hands := g.CountPaths(g.Entry(), func(n ast.Node) int {
-			if ss, ok := n.(*ast.SendStmt); ok && m.chanFieldOf(ss.Chan, f) == m.fSuccessCh {
-				return 1
-			}
-			return 0
-		}, nil)
-		for loc, h := range hands {
-			c.Check("C01-R6", f.Key()+" exit balanced", "exit", h == incs[loc] && h == fins[loc] && (h == 2 || h == 1),
-				"on every path: hand-outs == increments == finish-poster goroutines (each exactly 0 or exactly 1); masks hand-out="+itoa(int(h))+" inc="+itoa(int(incs[loc]))+" finish-poster="+itoa(int(fins[loc])))
-		}
-	}
+	ruleUseLoadedBalanced(c, m, "C01-R6")
 	if f := m.lc.fn("Scheduler.processCompleted"); f != nil {
 		g := c.G(f)
 		// finish branch: the select case body receiving from finishedReqCh
@@ -266,4 +227,49 @@ func joinNames(s core.LockSet) string {
 		out += x
 	}
 	return out
+}
+
+// ruleUseLoadedBalanced: in useLoadedRunner hand-outs, reference increments and finish posters agree on every path.
+func ruleUseLoadedBalanced(c *Ctx, m *schedModel, rule string) {
+	info := m.info
+	if f := m.lc.fn("LlmRequest.useLoadedRunner"); f != nil {
+		g := c.G(f)
+		_, incs := g.CountPaths(g.Entry(), func(n ast.Node) int {
+			if id, ok := n.(*ast.IncDecStmt); ok && id.Tok == token.INC && core.FieldVar(info, id.X) == m.fRefCount {
+				return 1
+			}
+			return 0
+		}, nil)
+		_, fins := g.CountPaths(g.Entry(), func(n ast.Node) int {
+			gs, ok := n.(*ast.GoStmt)
+			if !ok {
+				return 0
+			}
+			l, ok := ast.Unparen(gs.Call.Fun).(*ast.FuncLit)
+			if !ok {
+				return 0
+			}
+			k := 0
+			ast.Inspect(l.Body, func(x ast.Node) bool {
+				if ss, ok := x.(*ast.SendStmt); ok && m.chanFieldOf(ss.Chan, m.lc.byLit[l]) == m.fFinished {
+					k++
+				}
+				return true
+			})
+			if k == 1 && len(core.CallsTo(info, l.Body, false, "context.Context.Done")) == 1 {
+				return 1
+			}
+			return 0
+		}, nil)
+		_, hands := g.CountPaths(g.Entry(), func(n ast.Node) int {
+			if ss, ok := n.(*ast.SendStmt); ok && m.chanFieldOf(ss.Chan, f) == m.fSuccessCh {
+				return 1
+			}
+			return 0
+		}, nil)
+		for loc, h := range hands {
+			c.Check(rule, f.Key()+" exit balanced", "exit", h == incs[loc] && h == fins[loc] && (h == 2 || h == 1),
+				"on every path: hand-outs == increments == finish-poster goroutines (each exactly 0 or exactly 1); masks hand-out="+itoa(int(h))+" inc="+itoa(int(incs[loc]))+" finish-poster="+itoa(int(fins[loc])))
+		}
+	}
 }
